@@ -8,7 +8,7 @@
    lines = first:  kind code [state vs all-zero memory] ticks execs cmds attached nbps (addr predefined)*
            then one line per debugger stderr line: 7e char*
            (a source that does not assemble or load gives the single line "9") *)
-From Lace Require Import Word Machine Isa Vm Asm Dbg Driver.
+From Lace Require Import Word Machine Isa Vm Asm Dbg Driver DebugText.
 Open Scope N_scope.
 
 Definition dec_mem (l : list N) : memloc * list N :=
@@ -74,3 +74,23 @@ Definition run_dbg (args : list N) : list (list N) :=
   | Some r => enc_session r
   | None => [[9]]
   end.
+
+(** The same sessions with the script as TEXT, parsed by the command-language model:
+    case  = DBGT feat fuel nsrc src* ninp inp* has_arg narg arg* nstdin stdin*
+    lines = as for DBG; the single line "8" when the text is outside the domain of DebugText.v
+            (a line that leaves the process: `sudo`) *)
+Definition run_dbgt (args : list N) : list (list N) :=
+  let feat := negb (hdN args =? 0) in
+  let fuel := N.to_nat (hdN (tlN args)) in
+  let '(src, r1) := take (N.to_nat (hdN (tlN (tlN args)))) (tlN (tlN (tlN args))) in
+  let '(inp, r2) := take (N.to_nat (hdN r1)) (tlN r1) in
+  let has_arg := negb (hdN r2 =? 0) in
+  let '(arg, r3) := take (N.to_nat (hdN (tlN r2))) (tlN (tlN r2)) in
+  let '(stdin, _) := take (N.to_nat (hdN r3)) (tlN r3) in
+  let a := if has_arg then Some arg else None in
+  if negb (text_in_domain a stdin) then [[8]]
+  else
+    match debug_text feat src inp a stdin fuel with
+    | Some r => enc_session r
+    | None => [[9]]
+    end.
